@@ -243,7 +243,26 @@ def d6_3(ctx):
         # writer: prefix counts len(<str value>)
         lay = write_layout(ctx, c)[2]
         fl = flatten(lay or [])
-        writes_chars = bool(fl) and fl[0][0] == "lenof"
+        # unit of the written prefix: len(<str parameter>) counts characters, len(<its encoding>) counts bytes
+        write_unit = None
+        if fl and fl[0][0] == "lenof":
+            tgt = fl[0][3]
+            sparam = efn.args.args[1].arg if len(efn.args.args) > 1 else None
+            if tgt == sparam:
+                write_unit = "chars"
+            else:
+                for n in walk(efn):
+                    if isinstance(n, ast.Assign) and atom_name(n.targets[0]) == tgt:
+                        v = n.value
+                        while isinstance(v, ast.Subscript):
+                            v = v.value
+                        if isinstance(v, ast.Call) and isinstance(v.func, ast.Attribute) and v.func.attr == "encode" and atom_name(v.func.value) == sparam:
+                            write_unit = "bytes"
+                        elif isinstance(n.value, ast.Subscript) and atom_name(n.value.value) == sparam:
+                            write_unit = "chars"  # value = value[:n]
+                if tgt.startswith(f"{sparam}.encode("):
+                    write_unit = "bytes"
+        writes_chars = write_unit is not None
         # reader: first decoded value is the count; the read size must be count*width
         count_var, size_expr, slice_var = None, None, None
         for n in walk(dfn):
@@ -265,9 +284,10 @@ def d6_3(ctx):
         fixed_capacity = atom_name(size_expr) == "cls.size" and slice_var == count_var
         if fixed_capacity:
             factor = 1  # reads the whole capacity, keeps the first <count> *bytes*
-        ctx.check(writes_chars and factor == width, key, dfn, f"prefix counts characters; decode reads prefix x {width} byte(s) ({enc})",
-                  f"{c.name}: prefix counts characters of {width}-byte encoding {enc!r} but decode reads prefix x {factor} bytes: decode(encode(s)) loses characters",
-                  encoding=enc, char_width=width, bytes_per_count=factor, decoder=f"{dd.name}._decode")
+        need = width if write_unit == "chars" else 1
+        ctx.check(writes_chars and factor == need, key, dfn, f"prefix counts {write_unit}; decode reads prefix x {need} byte(s) ({enc})",
+                  f"{c.name}: encode ({de.name}._encode) writes a prefix counting {write_unit} of the {width}-byte encoding {enc!r}, but decode ({dd.name}._decode) reads prefix x {factor} bytes: decode(encode(s)) does not consume/return what was written",
+                  encoding=enc, char_width=width, prefix_unit=write_unit, bytes_per_count=factor, encoder=f"{de.name}._encode", decoder=f"{dd.name}._decode")
     # STRINGN: count x size
     c = ctx.model.cls(f"{DT}:STRINGN")
     dfn = c.methods.get("_decode")
